@@ -24,4 +24,7 @@ def run(rep, fb, tier):
     _lw.rule_ctor_roles(rep, fb)
     from ..rules import lints as _lv
     _lv.rule_call_roles(rep, fb)
+    from ..rules import lints2 as _l2
+    _l2.rule_regularized_bounds(rep, fb)
+    _l2.rule_form_array_simplify(rep, fb)
     rep.units = fb.units + ["src/awkward/partition.py, _util.py, operations/structure.py (ast)"]
